@@ -24,7 +24,8 @@ package main
 //           infl: per in-flight exchange: err = failed within 2 s of Close, late = did not, ok = succeeded
 //           legs: udp only: a new exchange on the UDP leg, on the TCP fallback leg (tc name)
 //           udp/tcp: sockets created by the upstream still open after Close (1.5 s grace), srv: stream
-//           connections the fake server has accepted and not yet seen closed
+//           connections the fake server has accepted and not yet seen closed - both counted BEFORE the
+//           after / legs probes (a leg that was not closed dials again when probed)
 
 import (
 	"bytes"
